@@ -852,6 +852,10 @@ private:
    */
   void reduce_num_cst_to_bool(const variable_t &x,
 			      const linear_constraint_t &cst) {
+    // x is being redefined: forget whatever was recorded about its
+    // previous definition.
+    m_bool_to_lincsts -= x;
+    m_bool_to_refcsts -= x;
     if (cst.is_tautology()) {
       m_product.first().set_bool(x, boolean_value::get_true());
     } else if (cst.is_contradiction()) {
@@ -883,6 +887,10 @@ private:
    */  
   void reduce_ref_cst_to_bool(const variable_t &x,
 			      const reference_constraint_t &cst) {
+    // x is being redefined: forget whatever was recorded about its
+    // previous definition.
+    m_bool_to_lincsts -= x;
+    m_bool_to_refcsts -= x;
     if (cst.is_tautology()) {
       m_product.first().set_bool(x, boolean_value::get_true());
     } else if (cst.is_contradiction()) {
@@ -1524,6 +1532,11 @@ public:
       } else {
         m_product.first().set_bool(dst, boolean_value::top());
       }
+      // dst is being redefined: forget whatever was recorded about
+      // its previous definition.
+      m_bool_to_lincsts -= dst;
+      m_bool_to_refcsts -= dst;
+      m_bool_to_bools -= dst;
     } else if ((op == OP_ZEXT || op == OP_SEXT) &&
                (get_bitwidth(src) == 1 && get_bitwidth(dst) > 1)) {
       // -- bool to int:
